@@ -68,7 +68,14 @@ fn gen_proj(t: &mut Tape) -> Proj {
         let d = DIRS[t.below(DIRS.len())];
         // a third of the files reuse the base name of an earlier file in another directory, so that one
         // include text can mean different files from different places (sibling first, then the libraries)
-        let mut base = format!("f{i}.circom");
+        // include targets need not be called `*.circom` (only files named on the command line do)
+        let ext = match if i == 0 { 9 } else { t.below(10) } {
+            0 => ".inc",
+            1 => ".txt",
+            2 => "",
+            _ => ".circom",
+        };
+        let mut base = format!("f{i}{ext}");
         if i > 0 && t.chance(85) {
             let other: &FileSpec = &files[t.below(i)];
             let b = other.rel.rsplit('/').next().unwrap_or("").to_string();
@@ -181,7 +188,14 @@ fn gen_proj(t: &mut Tape) -> Proj {
     let k = 1 + t.below(2.min(n));
     let mut seen = BTreeSet::new();
     for _ in 0..k {
-        let j = t.below(n);
+        let mut j = t.below(n);
+        if !files[j].rel.ends_with(".circom") {
+            // (a named path with another extension is ignored by the tool; take the next `.circom` file)
+            match (0..n).map(|d| (j + d) % n).find(|x| files[*x].rel.ends_with(".circom")) {
+                Some(x) => j = x,
+                None => continue,
+            }
+        }
         if seen.insert(j) {
             let spelled = match t.below(4) {
                 0 => format!("./{}", files[j].rel),
@@ -402,6 +416,9 @@ fn check_project_in(ctx: &Ctx, p: &Proj, rec: &Rec, root: &Path) -> Verdict {
     if !p.named_dirs.is_empty() {
         rec.class("projects_with_directory_argument");
     }
+    if p.files.iter().any(|f| !f.rel.ends_with(".circom") && std::fs::canonicalize(root.join(&f.rel)).map(|c| exp.reads.contains(&c)).unwrap_or(false)) {
+        rec.class("projects_reading_an_included_file_not_called_circom");
+    }
     {
         let canon_of = |f: &FileSpec| std::fs::canonicalize(root.join(&f.rel)).ok();
         if p.files.iter().any(|f| f.pragma == 1 && !f.includes.is_empty() && canon_of(f).map(|c| exp.reads.contains(&c)).unwrap_or(false)) {
@@ -606,7 +623,7 @@ pub fn run(ctx: &Ctx) -> i32 {
         &outcome,
         EvidenceSpec {
             level: "exploration",
-            rule: "projects of 2-6 files spread over five directories with generated include graphs (chains, diamonds, cycles, self includes; spellings `x`, `./x`, `dir/../x`, `../dir/x`, bare names resolved through -L directories and -L files, includes through a symlink, unresolvable includes), a generated choice of named files (also spelled `./x` or through a symlink, and in a sixth of the projects a directory argument - alone or next to files - naming every `.circom` file below it) and of library arguments in either order. A fifth of the files carry a pragma the tool does not support or none at all (an error or a warning, after which their includes and definitions count as before). Every file defines uniquely named templates with one deterministic `<--` finding. The real binary runs with RUST_LOG=circomspect_parser=debug; a reference resolver (includer directory first, then libraries in order) computes the reachable file set on the materialised tree. Checked: clean termination; each reachable file (by canonical path) read exactly once and nothing else read; `analyzing` lines = definitions of named files, once each; all located findings in named files; one `<--` finding per template of a named file; unresolvable includes of named files = P1000 errors at the include statement's line. Non-trivial = project whose include graph has a cycle, a diamond or a file reached twice; distinct by project hash.",
+            rule: "projects of 2-6 files spread over five directories with generated include graphs (chains, diamonds, cycles, self includes; spellings `x`, `./x`, `dir/../x`, `../dir/x`, bare names resolved through -L directories and -L files, includes through a symlink, unresolvable includes), a generated choice of named files (also spelled `./x` or through a symlink, and in a sixth of the projects a directory argument - alone or next to files - naming every `.circom` file below it) and of library arguments in either order. A third of the files are not called `*.circom` (they can be included, not named). A fifth of the files carry a pragma the tool does not support or none at all (an error or a warning, after which their includes and definitions count as before). Every file defines uniquely named templates with one deterministic `<--` finding. The real binary runs with RUST_LOG=circomspect_parser=debug; a reference resolver (includer directory first, then libraries in order) computes the reachable file set on the materialised tree. Checked: clean termination; each reachable file (by canonical path) read exactly once and nothing else read; `analyzing` lines = definitions of named files, once each; all located findings in named files; one `<--` finding per template of a named file; unresolvable includes of named files = P1000 errors at the include statement's line. Non-trivial = project whose include graph has a cycle, a diamond or a file reached twice; distinct by project hash.",
             assumptions: vec!["read counts are taken from the parser's own debug log line `reading file`".into()],
             extra: json!({}),
         },
